@@ -23,6 +23,17 @@ for line in out.splitlines():
     m=re.match(r'# verif/mc/gen/(\w+)/(\w+)',line)
     if m: cur=(m.group(1),m.group(2)); bad[cur]=[]; continue
     if cur and len(bad[cur])<6: bad[cur].append(line[:300])
+# a cell whose own code is fine but which imports a corpus file that is not usable cannot be linked either
+# (go build only names the root cause)
+broken=set(bad)|{(s['runtime'],s['file']) for s in status if s.get('error')}
+changed=True
+while changed:
+    changed=False
+    for s in status:
+        key=(s['runtime'],s['file'])
+        if key not in broken and any((s['runtime'],d) in broken for d in s.get('deps') or []):
+            broken.add(key); changed=True
+            bad[key]=['depends on a corpus file whose generated code is not usable: '+', '.join(d for d in s['deps'] if (s['runtime'],d) in broken)]
 tags=[]; comp=[]
 for s in status:
     key=(s['runtime'],s['file'])
